@@ -56,7 +56,7 @@ type mhandle struct {
 	full      bool   // setvbuf("full")
 	pending   []byte // written, not yet flushed (full mode)
 	pendStart int
-	minSeen   int // smallest pending prefix a second handle has already seen (monotone)
+	minSeen   int    // smallest pending prefix a second handle has already seen (monotone)
 	lastOp    string // "", read, write, sync
 	readEOF   bool
 	opened    bool // has ever been opened
@@ -236,9 +236,9 @@ func (e *Engine) Run(t *core.Tape, cfg *core.Config, st *core.Stats) (viol *core
 	}
 	// run one op: code must `return enc(...)`
 	type expect struct {
-		raise bool
-		soft  bool     // nil + message
-		vals  []string // exact encoded values
+		raise  bool
+		soft   bool                     // nil + message
+		vals   []string                 // exact encoded values
 		accept func(vals []string) bool // alternative acceptance (pending-prefix relaxation)
 	}
 	do := func(desc, code string, ex expect) *core.Violation {
